@@ -349,13 +349,17 @@ pub fn finish(ctx: &Ctx, col: &Collector, wall_s: f64) -> Finish {
     for l in &known_lines {
         println!("{}", l);
     }
+    // a violation shown on the real code (each carries its replayable case) stands whatever else went wrong in the
+    // run; machinery trouble decides the exit code only when there is no violation to report
     if !machinery.is_empty() {
         for m in &machinery {
             eprintln!("MACHINERY: {}", m);
         }
-        return Finish { exit_code: 2 };
+        if new_keys.is_empty() {
+            return Finish { exit_code: 2 };
+        }
     }
-    if evals > 0 && skipped * 2 > evals {
+    if new_keys.is_empty() && evals > 0 && skipped * 2 > evals {
         eprintln!("MACHINERY: more than half of the cases were skipped because the subject panicked; check is vacuous (see C10)");
         return Finish { exit_code: 2 };
     }
